@@ -559,6 +559,9 @@ class Interp(ExprMixin, CallMixin):
         if value and isinstance(cond, Sym) and cond.op == 'booland':
             for a in cond.args:
                 self.assume(a, True, fr)
+        if isinstance(cond, Sym) and cond.op == 'cmp' and ((value and cond.args[0] == 'in') or (not value and cond.args[0] == 'not in')):
+            # ``key in table`` holds on this branch: the look-up table[key] finds it
+            fr.nonempty.add('#key of %s' % _show(cond.args[1]))
         if isinstance(cond, Sym) and cond.op == 'cmp':
             op, a, b = cond.args
             # i < len(X) in any spelling: index i of X exists (i a symbolic offset; constants are handled below)
